@@ -53,8 +53,11 @@ def main():
         # scratch files) stays an infrastructure failure.
         hdir = os.path.dirname(os.path.abspath(__file__)) + os.sep
         hframes = [f for f in frames if os.path.realpath(f.filename).startswith(hdir)]
-        if hframes and os.path.basename(hframes[-1].filename) == pid.lower() + '.py' \
-                and isinstance(exc, (KeyError, IndexError, AttributeError, TypeError, ValueError, AssertionError, ZeroDivisionError, RuntimeError)) \
+        own = pid.lower() + '.py'
+        conv = str(exc).startswith(('cannot convert', 'cannot encode'))     # a NaN / inf / object the implementation answered
+        if hframes and (os.path.basename(hframes[-1].filename) == own
+                        or (conv and any(os.path.basename(f.filename) == own for f in hframes))) \
+                and isinstance(exc, (KeyError, IndexError, AttributeError, TypeError, ValueError, AssertionError, ZeroDivisionError, RuntimeError, OverflowError)) \
                 and st.get('make_ok') and st.get('driver_ok', True):
             last = hframes[-1]
             ck.violation('the check could not read the implementation\'s answer: %s: %s at harness/%s:%d (%s); the answer does '
